@@ -8,4 +8,5 @@ INVARIANT EqualOnlyIfIdentical
 INVARIANT Transitive
 INVARIANT ConstantsAsNumbers
 INVARIANT LeadIsMax
+INVARIANT Mono3Total
 CHECK_DEADLOCK FALSE
